@@ -207,6 +207,7 @@ type Instance struct {
 	AdminIPs   []string
 	Perms      map[string][]*checker.Permissions
 	Rules      *standardrules.Service
+	RealRuler  ruler.Service // the real ruler (not the fault wrapper the signer uses)
 	Signer     *standardsigner.Service
 	Handler    *signerhandler.Handler
 	Locker     locker.Service
@@ -266,6 +267,7 @@ func (inst *Instance) open(ctx context.Context) error {
 	if err != nil {
 		return err
 	}
+	inst.RealRuler = realRuler
 	checkerSvc, err := staticchecker.New(ctx, staticchecker.WithPermissions(inst.Perms))
 	if err != nil {
 		return err
